@@ -163,6 +163,26 @@ def session_cadence(rep, w, rng, n, sd):
     from . import engine_session as es
     from . import session_rig as sr
     cfgs = [sr.gen_config(rng, alpha_kinds=("single", "single", "fixed"), allow_fail=False) for _ in range(n)]
+    # plus signal-DRIVEN sessions (the repository's top-N momentum alpha model), where the Session model itself
+    # carries the momentum windows: compared below through the allocations they produce
+    topn_cfgs = [sr.gen_config(rng, alpha_kinds=("topn",), allow_fail=False) for _ in range(n)]
+    try:
+        texps = es.tlc_outcomes(w, topn_cfgs, rep, "MC_Session(top-N momentum)")
+        with multiprocessing.Pool(16) as pool:
+            touts = pool.map(es._real_job, [(c, sd * 19 + i) for i, c in enumerate(topn_cfgs)], chunksize=2)
+        ntop = 0
+        for c, exp, out in zip(topn_cfgs, texps, touts):
+            if exp is None:
+                continue
+            ntop += 1
+            for kind, detail in es.compare(c, exp, out):
+                if kind in ("alloc-weights", "alloc-keys"):
+                    # which assets the momentum ranking selects: signal values, warm-up and tracking order at work.
+                    # (Recorded as a warning: no listed property states the top-N rule itself.)
+                    rep.warnings.append("MODEL:topn-allocation %s; %s" % (detail, es._brief(c)))
+        rep.cov["topn_sessions_compared_with_model"] = ntop
+    except tlc.TLCError as e:
+        rep.machinery.append(str(e)[-1500:])
     try:
         exps = es.tlc_outcomes(w, cfgs, rep, "MC_Session(cadence)")
     except tlc.TLCError as e:
